@@ -23,7 +23,12 @@ pub fn out(p: &str) -> String {
 }
 
 pub fn cs(s: &str) -> CString {
-    CString::new(s.as_bytes().iter().copied().take_while(|&b| b != 0).collect::<Vec<u8>>()).unwrap()
+    CString::new(proto::dec_path(s).into_iter().take_while(|&b| b != 0).collect::<Vec<u8>>()).unwrap()
+}
+
+/// a path string (possibly carrying raw bytes, see proto::dec_path) as an OsString for std::fs
+pub fn os(s: &str) -> std::ffi::OsString {
+    std::os::unix::ffi::OsStringExt::from_vec(proto::dec_path(s))
 }
 
 pub fn errno() -> i32 {
@@ -138,7 +143,7 @@ pub fn fstat(fd: RawFd) -> Option<St> {
 }
 
 pub fn readlink(p: &str) -> Option<String> {
-    std::fs::read_link(p).ok().map(|x| x.to_string_lossy().into_owned())
+    std::fs::read_link(os(p)).ok().map(|x| proto::enc_bytes(std::os::unix::ffi::OsStrExt::as_bytes(x.as_os_str())))
 }
 
 pub fn open_path(p: &str) -> MResult<OwnedFd> {
@@ -184,21 +189,24 @@ pub fn getfl(fd: RawFd) -> i32 { unsafe { libc::fcntl(fd, libc::F_GETFL) } }
 pub fn clear_dir(dir: &str) -> MResult<()> {
     if !dir.starts_with("/verif/.jail/") { return mach(format!("refusing to clear {}", dir)); }
     assert_jail()?;
-    let rd = match std::fs::read_dir(dir) { Ok(r) => r, Err(e) => return mach(format!("read_dir {}: {}", dir, e)) };
-    for ent in rd {
-        let ent = ent.map_err(|e| Mach(format!("readdir: {}", e)))?;
-        let p = ent.path();
-        let md = std::fs::symlink_metadata(&p).map_err(|e| Mach(format!("lstat {:?}: {}", p, e)))?;
-        if md.is_dir() {
-            // make sure we can descend even into mode-0 dirs
-            let _ = std::fs::set_permissions(&p, std::os::unix::fs::PermissionsExt::from_mode(0o700));
-            clear_dir(p.to_str().unwrap())?;
-            std::fs::remove_dir(&p).map_err(|e| Mach(format!("rmdir {:?}: {}", p, e)))?;
-        } else {
-            std::fs::remove_file(&p).map_err(|e| Mach(format!("unlink {:?}: {}", p, e)))?;
+    fn clear(dir: &std::path::Path) -> MResult<()> {
+        let rd = match std::fs::read_dir(dir) { Ok(r) => r, Err(e) => return mach(format!("read_dir {:?}: {}", dir, e)) };
+        for ent in rd {
+            let ent = ent.map_err(|e| Mach(format!("readdir: {}", e)))?;
+            let p = ent.path();
+            let md = std::fs::symlink_metadata(&p).map_err(|e| Mach(format!("lstat {:?}: {}", p, e)))?;
+            if md.is_dir() {
+                // make sure we can descend even into mode-0 dirs
+                let _ = std::fs::set_permissions(&p, std::os::unix::fs::PermissionsExt::from_mode(0o700));
+                clear(&p)?;
+                std::fs::remove_dir(&p).map_err(|e| Mach(format!("rmdir {:?}: {}", p, e)))?;
+            } else {
+                std::fs::remove_file(&p).map_err(|e| Mach(format!("unlink {:?}: {}", p, e)))?;
+            }
         }
+        Ok(())
     }
-    Ok(())
+    clear(std::path::Path::new(&os(dir)))
 }
 
 pub fn renameat2(old: &str, new: &str, flags: u32) -> Result<(), i32> {
